@@ -48,6 +48,9 @@ type Ctx struct {
 	loadInfo map[string]interface{}
 
 	// caches
+	modFns      []*ssa.Function
+	globalUsers map[*ssa.Global][]*ssa.Function
+	eff         *effects
 	funcDecls map[*types.Func]*ast.FuncDecl
 	prof      *Profile
 	profErr   []string
